@@ -37,7 +37,9 @@ import NeumannModel.Common.FramedLog
                                        before the fix: nothing about the log was logged.)
   Modelling decisions: node ids are `Nat`; a log entry is `(index, term, cmd)` and its
   `entry_data` is the opaque list `[index, term, cmd]` (bitcode round-trip assumed; checked on
-  the real node by the correspondence run); `log_base_index = 0` (no compaction);
+  the real node by the correspondence run); log compaction (`truncate_log`) is an event that only
+  moves `log_base_index` — the model keeps the whole log and the node's in-memory log is
+  `log.drop base` (the WAL is not touched by compaction, a restart comes back with base 0);
   WAL appends succeed (the failure branches return early without changing state);
   `is_peer_healthy` = true and geometric tie-break off (harness config).
   AppendEntries carries `(term, cmd)` pairs, the index of the k-th is `prev_log_index+1+k`
@@ -202,6 +204,12 @@ structure Node where
   leader : Option Nat := none
   /-- `peers.len()` (the harness' cluster: 4 peers, quorum 3) -/
   npeers : Nat := 4
+  /-- `log_base_index` (volatile): how many leading entries `truncate_log` has drained from the
+      in-memory log.  `log` above stays the WHOLE log (what the WAL holds and a restart recovers); the
+      node's `persistent.log` is `log.drop base`. -/
+  base : Nat := 0
+  /-- `config.snapshot_trailing_logs` -/
+  trailing : Nat := 100
   deriving DecidableEq, Repr
 
 /-- `quorum_size()` = `(peers.len() + 1) / 2 + 1` -/
@@ -225,6 +233,7 @@ inductive Event where
   | appendResponse (term : Nat)               -- AppendEntriesResponse{term, ..} seen by a leader
   | propose (cmd : Nat)
   | installSnapshot (lastIdx lastTerm : Nat) (entries : List (Nat × Nat))
+  | compact (snapIdx : Nat)                              -- `truncate_log(meta)` (log compaction, memory only)
   deriving DecidableEq, Repr
 
 inductive Reply where
@@ -246,16 +255,19 @@ inductive Micro where
   | ackLog (es : List LogEntry)   -- acknowledged / accepted these entries
   deriving DecidableEq, Repr
 
+/-- last entry of the in-memory log; `truncate_log` never drains it, so it is the last entry of the
+    whole log -/
 def lastLogInfo (log : List LogEntry) : Nat × Nat :=
   match log.getLast? with
   | some e => (e.index, e.term)
   | none => (0, 0)
 
-/-- one iteration of `append_leader_entries` -/
-def appendOne (log : List LogEntry) (e : LogEntry) : List WalEntry × List LogEntry :=
+/-- one iteration of `append_leader_entries`; `base` = `log_base_index`: an entry at or below it has been
+    compacted away in memory (`log_index_to_array_index` = None) and is skipped -/
+def appendOne (base : Nat) (log : List LogEntry) (e : LogEntry) : List WalEntry × List LogEntry :=
   if e.index > log.length then
     ([.logEntryFull e.index e.term (encEntry e)], log ++ [e])
-  else if e.index = 0 then ([], log)
+  else if e.index ≤ base then ([], log)
   else match log[e.index - 1]? with
     | some old =>
       if old.term ≠ e.term then
@@ -264,11 +276,11 @@ def appendOne (log : List LogEntry) (e : LogEntry) : List WalEntry × List LogEn
     | none => ([], log)
 
 /-- `append_leader_entries` -/
-def appendLoop (log : List LogEntry) : List LogEntry → List WalEntry × List LogEntry
+def appendLoop (base : Nat) (log : List LogEntry) : List LogEntry → List WalEntry × List LogEntry
   | [] => ([], log)
   | e :: es =>
-    let r1 := appendOne log e
-    let r2 := appendLoop r1.2 es
+    let r1 := appendOne base log e
+    let r2 := appendLoop base r1.2 es
     (r1.1 ++ r2.1, r2.2)
 
 /-- entries of an AppendEntries / snapshot message with their indices -/
@@ -276,13 +288,14 @@ def mkEntries (base : Nat) : List (Nat × Nat) → List LogEntry
   | [] => []
   | (t, c) :: rest => ⟨base + 1, t, c⟩ :: mkEntries (base + 1) rest
 
-/-- the AppendEntries consistency check -/
-def logOk (log : List LogEntry) (prevIdx prevTerm : Nat) : Bool :=
+/-- the AppendEntries consistency check (a compacted `prev` counts as consistent) -/
+def logOk (base : Nat) (log : List LogEntry) (prevIdx prevTerm : Nat) : Bool :=
   if prevIdx = 0 then true
   else if prevIdx ≤ log.length then
-    match log[prevIdx - 1]? with
-    | some e => e.term = prevTerm
-    | none => false
+    if prevIdx ≤ base then true
+    else match log[prevIdx - 1]? with
+      | some e => e.term = prevTerm
+      | none => false
   else false
 
 structure StepOut where
@@ -363,10 +376,11 @@ def step (n : Node) : Event → StepOut
     let m1 : List Micro := (preHigher n t .follower).1
     let n1 : Node := (preHigher n t .follower).2
     if t = n1.term then
-      if logOk n1.log prevIdx prevTerm then
-        let r := appendLoop n1.log (mkEntries prevIdx ents)
+      if logOk n1.base n1.log prevIdx prevTerm then
+        let r := appendLoop n1.base n1.log (mkEntries prevIdx ents)
         let mi := min (prevIdx + ents.length) r.2.length
-        { micros := m1 ++ r.1.map Micro.wal ++ [.ackTerm n1.term, .ackLog (r.2.filter (fun e => decide (e.index ≤ mi)))],
+        { micros := m1 ++ r.1.map Micro.wal
+                    ++ [.ackTerm n1.term, .ackLog ((r.2.drop n1.base).filter (fun e => decide (e.index ≤ mi)))],
           node := { n1 with log := r.2, role := .follower, leader := some ldr }, reply := .append n1.term true mi }
       else { micros := m1 ++ [.ackTerm n1.term], node := { n1 with role := .follower, leader := some ldr },
              reply := .append n1.term false 0 }
@@ -380,6 +394,11 @@ def step (n : Node) : Event → StepOut
       { micros := [.wal (.logEntryFull e.index e.term (encEntry e)), .ackTerm n.term, .ackLog [e]],
         node := { n with log := n.log ++ [e] }, reply := .proposed e.index }
     else { micros := [], node := n, reply := .notLeader }
+  | .compact snapIdx =>
+    -- truncate_log: cut = (snapIdx - trailing) - log_base_index; drained iff 0 < cut < persistent.log.len()
+    let cut := (snapIdx - n.trailing) - n.base
+    let b := if 0 < cut ∧ cut < n.log.length - n.base then n.base + cut else n.base
+    { micros := [], node := { n with base := b, snapIdx := some snapIdx }, reply := .none }
   | .installSnapshot lastIdx lastTerm ents =>
     let snap := mkEntries 0 ents
     -- install_snapshot: "snapshot contains no entries" / index mismatch / term mismatch
@@ -396,7 +415,7 @@ def step (n : Node) : Event → StepOut
         let n1 : Node := (preHigher n lastTerm n.role).2
         { micros := m1 ++ (snap.map fun e => WalEntry.logEntryFull e.index e.term (encEntry e)).map Micro.wal
                     ++ [.wal (.logTruncate (last.index + 1)), .ackTerm n1.term, .ackLog snap],
-          node := { n1 with log := snap, snapIdx := some lastIdx }, reply := .snapshot true }
+          node := { n1 with log := snap, snapIdx := some lastIdx, base := 0 }, reply := .snapshot true }
 
 /-- `install_snapshot_entries` BEFORE fix 73e56b11 (kept only for
     `snapshot_install_not_durable_witness`): the log is replaced in memory, nothing about it is logged. -/
@@ -426,22 +445,23 @@ def installSnapshotOld (n : Node) (lastTerm : Nat) (ents : List (Nat × Nat)) : 
   the result of the `LogTruncate` append was ignored, the in-memory log truncated and the new entry
   pushed, then `persist_log_entry` failed.  Either way memory held an entry the WAL did not. -/
 
-/-- one iteration of `append_leader_entries`, every WAL append failing: (keep going?, log) -/
-def appendOneFail (log : List LogEntry) (e : LogEntry) : Bool × List LogEntry :=
+/-- one iteration of `append_leader_entries` BEFORE fix 54033160, every WAL append failing:
+    (keep going?, log) -/
+def appendOneFail (base : Nat) (log : List LogEntry) (e : LogEntry) : Bool × List LogEntry :=
   if e.index > log.length then (false, log ++ [e])
-  else if e.index = 0 then (true, log)
+  else if e.index ≤ base then (true, log)
   else match log[e.index - 1]? with
     | some old => if old.term ≠ e.term then (false, log.take (e.index - 1) ++ [e]) else (true, log)
     | none => (true, log)
 
-def appendLoopFail (log : List LogEntry) : List LogEntry → Bool × List LogEntry
+def appendLoopFail (base : Nat) (log : List LogEntry) : List LogEntry → Bool × List LogEntry
   | [] => (true, log)
   | e :: es =>
-    let r := appendOneFail log e
-    if r.1 then appendLoopFail r.2 es else (false, r.2)
+    let r := appendOneFail base log e
+    if r.1 then appendLoopFail base r.2 es else (false, r.2)
 
 /-- does `append_leader_entries` need the WAL at all for these entries? (no: all already held) -/
-def appendNeedsWal (log : List LogEntry) (es : List LogEntry) : Bool := !(appendLoopFail log es).1
+def appendNeedsWal (base : Nat) (log : List LogEntry) (es : List LogEntry) : Bool := !(appendLoopFail base log es).1
 
 /-- one handler call while every WAL append fails, code BEFORE fix 54033160 -/
 def stepFailOld (n : Node) : Event → StepOut
@@ -467,12 +487,12 @@ def stepFailOld (n : Node) : Event → StepOut
   | .appendEntries t ldr prevIdx prevTerm ents =>
     if t > n.term then { micros := [.ackTerm n.term], node := n, reply := .append n.term false 0 }
     else if t = n.term then
-      if logOk n.log prevIdx prevTerm then
-        let r := appendLoopFail n.log (mkEntries prevIdx ents)
+      if logOk n.base n.log prevIdx prevTerm then
+        let r := appendLoopFail n.base n.log (mkEntries prevIdx ents)
         let mi := min (prevIdx + ents.length) r.2.length
         if r.1 then
           -- nothing to write: the ordinary success path
-          { micros := [.ackTerm n.term, .ackLog (r.2.filter (fun e => decide (e.index ≤ mi)))],
+          { micros := [.ackTerm n.term, .ackLog ((r.2.drop n.base).filter (fun e => decide (e.index ≤ mi)))],
             node := { n with log := r.2, role := .follower, leader := some ldr }, reply := .append n.term true mi }
         else
           { micros := [.ackTerm n.term], node := { n with log := r.2, role := .follower, leader := some ldr },
@@ -485,6 +505,7 @@ def stepFailOld (n : Node) : Event → StepOut
     if n.role = .leader then { micros := [], node := n, reply := .walFailed }
     else { micros := [], node := n, reply := .notLeader }
   | .installSnapshot _ _ _ => { micros := [], node := n, reply := .snapshot false }
+  | .compact i => step n (.compact i)
 
 /-- one handler call while every WAL append fails (code as it is: persist first, then change
     memory; the `LogTruncate` result checked): a failing call leaves the log alone -/
@@ -492,11 +513,11 @@ def stepFail (n : Node) : Event → StepOut
   | .appendEntries t ldr prevIdx prevTerm ents =>
     if t > n.term then { micros := [.ackTerm n.term], node := n, reply := .append n.term false 0 }
     else if t = n.term then
-      if logOk n.log prevIdx prevTerm then
-        let r := appendLoopFail n.log (mkEntries prevIdx ents)
+      if logOk n.base n.log prevIdx prevTerm then
+        let r := appendLoopFail n.base n.log (mkEntries prevIdx ents)
         let mi := min (prevIdx + ents.length) n.log.length
         if r.1 then
-          { micros := [.ackTerm n.term, .ackLog (n.log.filter (fun e => decide (e.index ≤ mi)))],
+          { micros := [.ackTerm n.term, .ackLog ((n.log.drop n.base).filter (fun e => decide (e.index ≤ mi)))],
             node := { n with role := .follower, leader := some ldr }, reply := .append n.term true mi }
         else
           { micros := [.ackTerm n.term], node := { n with role := .follower, leader := some ldr },
